@@ -455,6 +455,7 @@ int main(void)
 			if (!strcmp(t, "d")) r = mpt_iterator_consume(slot_it[cur], 'd', &dv);
 			else if (!strcmp(t, "u")) r = mpt_iterator_consume(slot_it[cur], 'u', &uv);
 			else if (!strcmp(t, "skip")) r = mpt_iterator_consume(slot_it[cur], 0, 0);
+			else if (!strcmp(t, "Z")) r = mpt_iterator_consume(slot_it[cur], 'Z', &dv);
 			else { puts("bad-op"); continue; }
 			if (r < 0) printf("R err | C - | I ret=%s\n", drv_errname(r));
 			else {
@@ -465,6 +466,75 @@ int main(void)
 				else fputc('-', stdout);
 				printf(" | C - | I ret=%s\n", (*t == 's' || r) ? "type" : "0");
 			}
+		}
+		else if (!strcmp(op, "meta") && drv_nw == 2) {
+			/* metatype plumbing of the current source: type query, format, iterator pointer, reference count */
+			const uint8_t *fmt = 0;
+			MPT_INTERFACE(iterator) *ip = 0;
+			if (cur < 0) { puts("bad-op"); continue; }
+			MPT_INTERFACE(metatype) *mt = slot_mt[cur];
+			int r0 = MPT_metatype_convert(mt, 0, 0);
+			int r1 = MPT_metatype_convert(mt, 0, &fmt);
+			int r2 = MPT_metatype_convert(mt, MPT_ENUM(TypeIteratorPtr), &ip);
+			{
+				/* further conversions some sources offer (their verdict is not part of the protocol; no fault) */
+				struct iovec vv = { 0, 0 };
+				void *pp = 0;
+				(void) MPT_metatype_convert(mt, MPT_ENUM(TypeMetaPtr), &pp);
+				(void) MPT_metatype_convert(mt, MPT_ENUM(TypeBufferPtr), &pp);
+				(void) MPT_metatype_convert(mt, MPT_type_toVector('c'), &vv);
+				(void) MPT_metatype_convert(mt, MPT_ENUM(TypeVector), &vv);
+				(void) MPT_metatype_convert(mt, MPT_type_toVector('c'), 0);
+			}
+			uintptr_t ref = mt->_vptr->addref(mt);
+			if (ref) mt->_vptr->unref(mt);
+			/* sources are not shared: no further reference is handed out */
+			if (r0 >= 0 && r1 >= 0 && fmt && r2 >= 0 && ip == slot_it[cur] && !ref) puts("R ok | C - | I -");
+			else printf("R bad-meta r0=%d r1=%d r2=%d ref=%d | C - | I -\n", r0, r1, r2, (int) ref);
+		}
+		else if (!strcmp(op, "fromval") && drv_nw == 3) {
+			/* it fromval lin|range|fac : a value that is neither a text nor an iterator is no description */
+			MPT_STRUCT(value) v = MPT_VALUE_INIT(0, 0);
+			MPT_INTERFACE(metatype) *mt;
+			static const double d = 4;
+			MPT_value_set(&v, 'd', &d);
+			if (!strcmp(drv_w[2], "lin")) mt = _mpt_iterator_linear(&v);
+			else if (!strcmp(drv_w[2], "range")) mt = _mpt_iterator_range(&v);
+			else if (!strcmp(drv_w[2], "fac")) mt = _mpt_iterator_factor(&v);
+			else { puts("bad-op"); continue; }
+			add_slot(mt, 0, -1);
+		}
+		else if (!strcmp(op, "rangeset") && drv_nw == 3) {
+			/* it rangeset vec2|vec3|vecnull|type|itnull : mpt_range_set with non-iterator values */
+			MPT_STRUCT(value) v = MPT_VALUE_INIT(0, 0);
+			MPT_STRUCT(range) r = { 7, 9 };
+			static const double d3[3] = { -1.5, 2, 5 };
+			struct iovec vec;
+			void *none = 0;
+			const char *k = drv_w[2];
+			int ret;
+			if (!strcmp(k, "vec2")) { vec.iov_base = (void *) d3; vec.iov_len = 2 * sizeof(double); MPT_value_set(&v, MPT_type_toVector('d'), &vec); }
+			else if (!strcmp(k, "vec3")) { vec.iov_base = (void *) d3; vec.iov_len = 3 * sizeof(double); MPT_value_set(&v, MPT_type_toVector('d'), &vec); }
+			else if (!strcmp(k, "vecnull")) { vec.iov_base = 0; vec.iov_len = 2 * sizeof(double); MPT_value_set(&v, MPT_type_toVector('d'), &vec); }
+			else if (!strcmp(k, "type")) { MPT_value_set(&v, 'd', d3); }
+			else if (!strcmp(k, "itnull")) { MPT_value_set(&v, MPT_ENUM(TypeIteratorPtr), &none); }
+			else { puts("bad-op"); continue; }
+			ret = mpt_range_set(&r, &v);
+			if (ret < 0) printf("R err | C - | I ret=%s\n", drv_errname(ret));
+			else { fputs("R ok min=", stdout); put_num(r.min, 1, 0); fputs(" max=", stdout); put_num(r.max, 1, 0); printf(" | C - | I ret=%d\n", ret); }
+		}
+		else if (!strcmp(op, "rest") && drv_nw == 2) {
+			/* the current element of a text argument read as a string: the remaining text */
+			const MPT_STRUCT(value) *val;
+			const char *txt = (const char *) 1;
+			int r;
+			if (cur < 0) { puts("bad-op"); continue; }
+			if (!(val = slot_it[cur]->_vptr->value(slot_it[cur]))) { puts("R null | C - | I -"); continue; }
+			r = mpt_value_convert(val, 's', &txt);
+			if (r < 0) printf("R noconv | C - | I ret=%s\n", drv_errname(r));
+			else if (!txt) puts("R rest=null | C - | I -");
+			else if (txt == (const char *) 1) puts("R rest=unset | C - | I -");
+			else { fputs("R rest=", stdout); drv_puthex(stdout, (const uint8_t *) txt, strnlen(txt, 4096)); puts(" | C - | I -"); }
 		}
 		else if (!strcmp(op, "text") && drv_nw == 2) {
 			/* the description text of the metatype ('s' conversion) */
